@@ -462,10 +462,9 @@ def check_hexg(core, chk, cases, amap, limit=6):
     chaining points by the Lean model of yr_re_ast_split_at_chaining_point) has the shape of the inductive grammar
     description `Gram .piece` (Lemmas/ReHexGram.lean) and lies in the fragment of the completeness theorems: hexG piece,
     hexG (mirror piece), maskOK piece (Model/ReHexG.lean) — the hypothesis `HexG r` / `HexG (rev r)` / `MaskOK r` of
-    Thm/C02 vm_complete_hex_partial / hex_scan_complete_partial as a checked fact."""
+    Thm/C02 vm_complete_hex / hex_scan_complete_partial as a checked fact."""
     lines, want = [], {}
-    res = {"hexg_checked": 0, "hexg_pieces": 0, "hexg_false": 0, "gram_false": 0, "hexg_rev_false": 0, "mask_false": 0,
-           "whole_is_tokens": 0, "outside_jump_ge_65536": 0}
+    res = {"hexg_checked": 0, "hexg_pieces": 0, "hexg_false": 0, "gram_false": 0, "hexg_rev_false": 0, "mask_false": 0, "whole_is_tokens": 0}
     for c in cases:
         cid = c.split(" ", 1)[0]
         toks = dict(t.split("=", 1) for t in c.split()[1:] if "=" in t)
